@@ -15,7 +15,7 @@ fn post(a: usize, amt: Option<VE>, bal: Option<VE>) -> Posting {
     Posting { account: a, amount: amt, cost: None, lot: None, balance: bal }
 }
 fn txn(d: i32, posts: Vec<Posting>) -> Entry {
-    Entry::Txn(Txn { effective: None, date: d, posts })
+    Entry::Txn(Txn { effective: None, date: d, posts, head: Head::default() })
 }
 
 fn fixed_cases() -> Vec<Vec<Entry>> {
@@ -224,6 +224,7 @@ fn emit_c02(sh: &mut Shards, st: &mut Stats, entries: &[Entry], deco: &Deco, non
     st.add("shape:signed_rate", s.neg_rate as u64);
     st.add("shape:paren_expr", s.exprs as u64);
     st.add("shape:format_decl", s.formats as u64);
+    shape_text_stats(st, &s);
     let mut rep = case_json("C02", entries, &r.text, &o);
     if !deco.is_plain() {
         rep["deco"] = serde_json::to_value(deco).unwrap();
@@ -273,6 +274,7 @@ pub fn run(o: &Opts, prop: &str) {
     } else {
         "generated ledgers biased to an omitted-amount or assignment posting at every position among 1-5 others with costs/lots/several commodities (one cost or lot price in four written with a minus sign: `@@ -1,000 USD`, `{{-5 EUR}}`, `@ -2 USD`), after a history giving the assigned account 0/1/2 commodities + fixed boundary ledgers; non-trivial = the ledger has an omitted or assigned posting and is not rejected before reaching it; distinct by ledger text".to_string()
     };
+    st.rule = format!("{}; {}", st.rule, TEXT_SHAPES_RULE);
     st.assumptions.push("literal mantissas below 10^7 with scale <= 3: every intermediate Decimal is exact".into());
     st.assumptions.push("no total price on an expression-produced zero (sign bit of zero is not modelled)".into());
     if is02 {
@@ -292,7 +294,9 @@ pub fn run(o: &Opts, prop: &str) {
         }
     }
     if !replay {
-        for es in fixed_cases() {
+        for (n, mut es) in fixed_cases().into_iter().enumerate() {
+            // each fixed ledger in its own header / sample-number shape
+            vary_shapes_nth(&mut es, n);
             if is02 {
                 emit_c02(&mut sh, &mut st, &es, &Deco::default(), &nontrivial, "fixed");
             } else {
